@@ -382,6 +382,12 @@ class C32:
       if unsafe and is_permutation_only(lib, ma, mb):
         return [(KNOWN_FP, 'elements inside a <frame>/<replicate> are written after their direct siblings: the reloaded '
                  'model has the same objects in a different id order')]
+      if comp.fusestatic and name_orders(lib, ma)['body'] == name_orders(lib, mb)['body']:
+        # fusestatic rewrites the spec during the first compile; quantities decided before fusing (alignfree/simple-body
+        # tests, bounds, ids, BVH) are decided again on the fused model after reload.  Same root-cause family as the
+        # specific fusestatic findings above and as C36's fusestatic findings; judged only for "same bodies".
+        return [('fusestatic-roundtrip-other', 'with fusestatic the first compile takes decisions (alignfree / simple body, '
+                 'bounds, ids) on the unfused tree that the reload takes on the already fused tree')]
       return None
     keys = sorted(repairs)
     for r in range(0, len(keys) + 1):
@@ -616,6 +622,9 @@ equal, floats within 200 eps), the second save must be textually identical, and 
 and directly printed attributes are compared. Sampled in the model dimension.'''
 LEVEL_NOTE = '''Trusted: the tinyxml2-compatible shim on expat (lexical layer only), reflection, the verification build.
 Not covered: models that need OBJ/PNG decoders or SDF/sensor plugins (do not load in this build), flex/bvh/mesh_poly arrays
-(skipped exactly as upstream does), derived float arrays at default precision. Documents that contain the shape of the
+(skipped exactly as upstream does), derived float arrays at default precision. Outputs of the inverse inertia matrix and
+body_iquat are compared at 1e-8 relative (conditioned quantities), models with meshes at float32 accuracy. With fusestatic a
+mismatch that matches no specific fusestatic finding is reported under the family fingerprint fusestatic-roundtrip-other
+(only when both models have the same body list), which reduces sensitivity for the ~8% of documents that use fusestatic. Documents that contain the shape of the
 known writer finding (element in a frame followed by a direct sibling of the same kind) are judged only for "same objects,
 different order" and reported under the fingerprint replicate-frame-geom-order; every other mismatch is a violation.'''
